@@ -316,7 +316,7 @@ def rule_typestate(ctx, only=None):
                        "handle acquired by %s is closed, or handed to the caller, on every path to a normal or "
                        "exceptional exit (flag- and hasattr-correlated branches resolved)" % ast.unparse(call.func))
     if only is None:
-        ctx.floor("IO.TYPESTATE", 9)
+        ctx.floor("IO.TYPESTATE", 6)
     ctx.stat("acquire_sites", n_sites)
 
 
@@ -471,4 +471,4 @@ def rule_no_escape(ctx):
             else:
                 ctx.ok("IO.NO-ESCAPE", site, fi, fi.node,
                        "handle '%s' is only used locally, passed as an argument, closed or returned" % v)
-    ctx.floor("IO.NO-ESCAPE", 5)
+    ctx.floor("IO.NO-ESCAPE", 3)
